@@ -134,13 +134,23 @@ def fold_ref(alg, it, terms, op):
     return acc
 
 
-def build_left(b, terms, op):
+def build_left(b, terms, op, prequery=False):
     import operator
 
     f = {"+": operator.add, "-": operator.sub, "*": operator.mul, "/": operator.truediv}[op]
     acc = b.S(terms[0])
-    for t in terms[1:]:
-        acc = f(acc, b.S(t))
+    if prequery:
+        # a user inspecting pieces of the model first: the term itself and a few shorter accumulations are classified
+        # (and cache their degree on the node) before the full accumulation is
+        acc.degree
+    for i, t in enumerate(terms[1:], 1):
+        tt = b.S(t)
+        if prequery and i in (1, 2, 50, 398):
+            tt.degree
+            tt.is_linear()
+        acc = f(acc, tt)
+        if prequery and i in (3, 60, 397, 405):
+            acc.degree
     return acc
 
 
@@ -200,12 +210,12 @@ def run_chain(rec, rng, kind, op, n, heavy):
     mag = max(jalg.t.mag, jalg.t.dmag)
 
     results = {}
-    for build in ("left-deep", "balanced"):
+    for build in ("left-deep", "left-deep-prequeried", "balanced"):
         res = {}
         results[build] = res
         try:
             b = B.Builder(DECLS)
-            e = build_left(b, terms, op) if build == "left-deep" else build_balanced(b, terms, op)
+            e = build_left(b, terms, op, prequery=build.endswith("prequeried")) if build.startswith("left-deep") else build_balanced(b, terms, op)
         except Exception as ex:
             bad(f"build-raises:{type(ex).__name__}", build, error=repr(ex)[:200])
             continue
@@ -218,7 +228,7 @@ def run_chain(rec, rng, kind, op, n, heavy):
                 return fn()
             except RecursionError as ex:
                 deriv = label in ("gradient-evaluate", "compile-gradient", "compiled-gradient-call", "compile-jacobian", "compiled-jacobian-call")
-                if deriv and op in ("*", "/") and build == "left-deep" and n >= 399:
+                if deriv and op in ("*", "/") and build.startswith("left-deep") and n >= 399:
                     # the derivative tree of a left-deep product / quotient accumulation is itself ~n..3n deep
                     mech = f"RecursionError:derivative-of-deep-left-nested-{'product' if op == '*' else 'quotient'}-chain"
                 else:
@@ -289,8 +299,11 @@ def run_chain(rec, rng, kind, op, n, heavy):
             if jfn is not None:
                 attempt("compiled-jacobian-call", lambda: np.asarray(jfn(x), dtype=float))
     da, db = results.get("left-deep", {}).get("degree"), results.get("balanced", {}).get("degree")
+    dq = results.get("left-deep-prequeried", {}).get("degree")
     if da is not None and db is not None and da != db:
         bad("degree-differs-between-associations", "both", left_deep=da[1], balanced=db[1])
+    if da is not None and dq is not None and da != dq:
+        bad("degree-depends-on-earlier-degree-queries", "left-deep-prequeried", fresh=da[1], after_queries=dq[1])
     rec.sample(show, cap=3)
 
 
